@@ -104,7 +104,28 @@ def rand_token(rng, allow_variadic=True, holes=("n",), treepath=False):
     return rng.choice(NAMES)
 
 
+def chain_dims(rng):
+    """one annotation in which later symbolic axes use names that are first bound BETWEEN two symbolic axes of the same
+    annotation (`a a+1 b a+b`): each symbolic axis must see the bindings made so far in the same walk"""
+    x, y = rng.shuffle(NAMES)[:2]
+    f = rng.choice([f"{x}+1", f"2*{x}", f"{x}*{x}", f"{x}+0"])
+    g = rng.choice([f"{y}+1", f"{x}+{y}", f"{x}*{y}", f"2*{y}", f"{y}-{x}+{x}"])
+    toks = [x, f, y, g]
+    k = rng.below(6)
+    if k == 0:
+        toks.insert(2, rng.choice(["_", "3", "..."]))
+    elif k == 1:
+        toks.insert(0, rng.choice(["*v", "_", "2"]))
+    elif k == 2:
+        toks.append(rng.choice([f"{x}+{y}", "*v", "..."]))
+    elif k == 3:
+        toks = [x, f, "#" + y, g]
+    return " ".join(toks)
+
+
 def rand_dims(rng, max_axes=5, holes=("n",), treepath=False):
+    if max_axes >= 4 and not treepath and rng.chance(1, 12):
+        return chain_dims(rng)
     n = rng.below(max_axes + 1)
     toks = []
     have_var = False
